@@ -1,4 +1,4 @@
-CONSTANTS Segs = {0,1,2,3,4,5,6,7,8,9,10} StructSeg = 11 Off = {}
+CONSTANTS Segs = {0,1,2,3,4,5,6,7,8,9,10} StructSeg = 11 OffSet = {} OffAt = 0
 INIT TInit
 NEXT TNext
 POSTCONDITION Accepted
